@@ -144,24 +144,27 @@ def undefined_names(chk, P):
 
 # ---------------------------------------------------------------------------
 def species_keys(chk, P):
-    I = F.make_interp(P)
     cls = P.cls(CP, "ConfigParser")
-    cp = InstV(cls)
-    site = cls.site_of("_pair_species_func")
-    for key in ("AB", "A-B", " A - B ", "A-B-C", "-", ""):
-        out = outcome(lambda: W.run_method(I, cp, "_pair_species_func", [Const(key)]))
+
+    def rows_of(text, prop):
+        def go():
+            out = parse(P, text)
+            if out[0] != "ok":
+                raise RaiseSignal(out[1], None)
+            I, cp = out[3], out[4]
+            return I.getattr(cp, prop)
+        return outcome(go)
+    site = cls.lookup("pair").site()
+    for key in ("AB", "A-B", " A - B ", "A-B-C", "-"):
+        out = rows_of("[Pair]\n%s : as.zero\n" % key, "pair")
         want = "accepted" if key.count("-") == 1 else "config-error"
         chk.ob("C16.E3", "[Pair] key %r (%d hyphen(s)) -> %s" % (key, key.count("-"), want), classify(P, out) == want, site=site,
                found=classify(P, out), expect=want, key="C16.E3|pair|%s" % key)
-    captured = {}
-    I.hooks[CP + ":ConfigParser._parse_label_type_params_line"] = lambda i, fv, a, k, n: captured.__setitem__("f", a[2]) or NONE
-    W.run_method(I, cp, "_parse_eam_fs_density_line", [Const("A->B"), Const("as.zero")])
-    f = captured["f"]
     for key in ("AB", "A->B", "A -> B", "A->B->C", "A-B"):
-        out = outcome(lambda: I.call(f, [Const(key)], {}))
+        out = rows_of("[EAM-Density]\n%s : as.zero\n" % key, "eam_density_fs")
         want = "accepted" if key.count("->") == 1 else "config-error"
         chk.ob("C16.E3", "[EAM-Density] key %r -> %s" % (key, want), classify(P, out) == want,
-               site=cls.site_of("_parse_eam_fs_density_line"), found=classify(P, out), expect=want, key="C16.E3|fs|%s" % key)
+               site=cls.lookup("eam_density_fs").site(), found=classify(P, out), expect=want, key="C16.E3|fs|%s" % key)
     # the wrapper turns any ConfigParserException of the key/definition parser into its own message (still a configuration error)
     # [Species]
     for text, want in (("[Species]\nAl.atomic_mass : 26.9\n", "accepted"), ("[Species]\nAl : 26.9\n", "config-error"),
@@ -610,11 +613,17 @@ def documented_valid(chk, P):
     # interpolation
     m = re.search(r"interpolation\n-+\n\n:Item: ``interpolation``\n:Format: (.*)\n", txt)
     doc_interp = re.findall(r"``([^`]+)``", m.group(1)) if m else []
-    tb = I.instantiate(P.cls("atsim.potentials.config._table_form_builder", "Table_Form_Builder"), [], {}, None)
-    labels = set(k.v for k, _ in tb.attrs["_table_forms"].items.values())
-    chk.ob("C16.E10", "every documented interpolation type %s is a registered table form" % doc_interp, bool(doc_interp) and set(doc_interp) <= labels,
-           site=P.cls("atsim.potentials.config._table_form_builder", "Table_Form_Builder").site_of("_populate"), found=sorted(labels),
-           expect=doc_interp, key="C16.E10|interpolation")
+    tbcls = P.cls("atsim.potentials.config._table_form_builder", "Table_Form_Builder")
+    tt_ = I.module_global(P.module(COMMON), "TableFormTuple")
+    refused = {}
+    for lab in doc_interp:
+        Jt = F.make_interp(P)
+        tb = Jt.instantiate(tbcls, [], {}, None)
+        o = outcome(lambda: W.run_method(Jt, tb, "create_potential_form", [Jt.call(tt_, [Const("t"), Const(lab), W.param("x"), W.param("y")], {})]))
+        if o[0] != "ok":
+            refused[lab] = classify(P, o)
+    chk.ob("C16.E10", "every documented interpolation type %s is accepted by the table-form builder" % doc_interp, bool(doc_interp) and not refused,
+           site=tbcls.lookup("create_potential_form").site(), found=refused or None, expect="all accepted", key="C16.E10|interpolation")
     # forms
     sigs = F.manual_signatures(repo)
     from .c06 import _form_tuple_hook
